@@ -1,5 +1,6 @@
 import Driver.Wire
 import Ramses.Model.Frame
+import Ramses.Model.LogLine
 import Ramses.Gen.Tables
 namespace Driver
 open Ramses
@@ -18,6 +19,15 @@ def ops02 (op : String) (a : List String) : Option String :=
   | "attrs", [verb, code, payload, a0, a1, a2, seqn] =>
     some (showPy showFrame (fromAttrs (unesc verb) (unesc code) (unesc payload) (unesc a0) (unesc a1) (unesc a2)
       (if seqn = "None" then none else some (unesc (seqn.drop 1).toString))))
+  | "log.write", [y, mo, d, h, mi, se, us, rssi, frame] =>
+    match [y, mo, d, h, mi, se, us].map (·.toNat?) with
+    | [some y, some mo, some d, some h, some mi, some se, some us] =>
+      some ("ok\t" ++ esc (LogLine.writeLine ⟨⟨y, mo, d, h, mi, se⟩, us⟩ (unesc rssi) (unesc frame)))
+    | _ => none
+  | "log.read", [line] =>
+    match LogLine.readLine (unesc line) with
+    | none => some "err\tValueError"
+    | some (t, rest) => some s!"ok\t{t.dt.year},{t.dt.month},{t.dt.day},{t.dt.hour},{t.dt.minute},{t.dt.second},{t.us}\t{esc rest}"
   | _, _ => none
 
 end Driver
